@@ -652,10 +652,12 @@ def r3_bounds(ctx, ents, cl, krate_prefix="cascette_", discharged=DISCHARGED_R3)
                     ctx.ok(rule, [bid, sk.kind, "proven", sk.bb, len(sk.goals)], "in bounds", sk.loc, nontrivial=True)
                 continue
             strict = sorted(t for t in sk.taint if strict_input(t, br))
-            if not strict and "param" in sk.taint:
+            if not strict and ("param" in sk.taint or any(at_[0] == "fld" and at_[1][0] == "arg" for g in sk.goals if g is not None for at_ in g.atoms())):
                 # a private helper's integer parameter: input-derived when an in-closure caller passes an input-derived value for it
                 for g in sk.goals:
                     for at_ in (g.atoms() if g is not None else ()):
+                        if at_[0] == "fld" and at_[1][0] == "arg":
+                            at_ = at_[1]
                         if at_[0] == "arg":
                             strict += sorted("%s (passed by a caller for `%s`)" % (t, a.b.local_name(at_[1])) for t in getattr(a, "param_in", {}).get(at_[1], ()) if strict_input(t, br))
                 strict = sorted(set(strict))
